@@ -321,6 +321,9 @@ add("sync_base_cache.rs", "s_eviction_counters_never_overflow", {"C10", "C08"}, 
 add("sync_cache.rs", "invalidate_of_a_pending_insert_queues_its_removal", {"C07", "C11", "C10"}, "quick", 60, "Cache::invalidate of a key whose Upsert is still queued", "n=1 admitted + 1 pending; model queue 4", quick={"C07", "C11", "C10"})
 add("sync_cache.rs", "contains_key_and_iter_are_not_maintenance_points", {"C15", "C16", "C14", "C09"}, "quick", 60, "public sync contains_key / iter with writes queued and the housekeeper due: no maintenance, nothing recorded; get tries exactly once", "n=1 + 1 pending; try_sync stubbed by a counting twin", quick={"C15", "C16"})
 add("sync_cache.rs", "sync_initial_capacity_is_inert", {"C17", "C13"}, "quick", 100, "sync builder: initial_capacity leaves sketch state, policy and counters of a fresh cache unchanged", "all capacities, initial capacities < 2^40", quick={"C17"})
+for _nm in ("keeps_newer_value", "then_rest_quiescent"):
+    add("sync_base_cache.rs", f"l_upsert_stale_reject_{_nm}", {"C03", "C01", "C10", "C11", "C08"}, "quick", 60, "F7 scenario step-wise: a stale queued insert of a key is rejected while the key's newer value (own op still queued) is in the map",
+        "n=1 (invalidated, Remove pending) + 2 queued inserts of one key, capacity 1; concrete sketch", quick={"C03", "C10", "C01"})
 for _nm in ("step1", "both"):
     add("sync_base_cache.rs", f"l_upsert_admission_dirty_victim_{_nm}", {"C10", "C04", "C03", "C13", "C08"}, "quick", 30, "handle_upsert admission whose LRU victim has a PENDING (queued) weight-changing update: counters == physical contents afterwards",
         "n=1 resident (counted 7, shared weight 3), hot newcomer (1), capacity 7; concrete sketch", quick={"C10", "C04", "C03"})
